@@ -434,7 +434,15 @@ impl DateTime {
         date_time = date_time.set_time(Time::from_nanos(nanoseconds)?);
 
         if let Some(offset) = time.offset {
-            date_time = date_time.as_offset(Offset::from_seconds(offset)?);
+            // Not `as_offset`: a date at the end of the supported range can leave it here
+            let offset = Offset::from_seconds(offset)?;
+            let nanos = date_time.as_nanos() - offset.resolve() as i128 * NANOS_PER_SEC as i128;
+            let (days, nanoseconds) = nanos_to_days_nanos(nanos)?;
+            date_time = Self {
+                days,
+                nanoseconds,
+                offset,
+            };
         }
 
         Ok(date_time)
